@@ -24,7 +24,8 @@ def _sym_of_operand(fn, env, op):
         return None
     pl = op["place"]
     if not pl["p"]:
-        return env.get(pl["l"])
+        v = env.get(pl["l"])
+        return None if v is not None and v[0] == "val" else v
     return None
 
 
@@ -37,6 +38,8 @@ def paths(fn, max_paths=4000, max_loop=1):
         d = norm(ex.operand(t["discr"], (bb, None)))
         return d
 
+    retval = [None]
+
     def step_block(bb, env, effects, lastret):
         b = fn.blocks[bb]
         for si, s in enumerate(b["stmts"]):
@@ -45,6 +48,12 @@ def paths(fn, max_paths=4000, max_loop=1):
             pl = s["place"]
             if pl["l"] == 0:
                 lastret = (bb, si)
+                retval[0] = None
+                rv0 = s["rv"]
+                if rv0["k"] == "use" and rv0["op"]["k"] in ("copy", "move") and not rv0["op"]["place"]["p"]:
+                    ev = env.get(rv0["op"]["place"]["l"])
+                    if ev is not None and ev[0] == "val":
+                        retval[0] = ev[1]
             if pl["p"]:
                 # write through a projection invalidates nothing we track (we track whole scalar locals only)
                 continue
@@ -52,6 +61,8 @@ def paths(fn, max_paths=4000, max_loop=1):
             val = None
             if rv["k"] == "use":
                 val = _sym_of_operand(fn, env, rv["op"])
+                if val is None and rv["op"]["k"] != "const" and not rv["op"]["place"]["p"] and env.get(rv["op"]["place"]["l"], ("",))[0] == "val":
+                    val = env[rv["op"]["place"]["l"]]
                 if val is None and rv["op"]["k"] != "const":
                     val = ("expr", show(norm(ex.operand(rv["op"], (bb, si)))))
             elif rv["k"] == "unop" and rv["op"] == "Not":
@@ -66,6 +77,9 @@ def paths(fn, max_paths=4000, max_loop=1):
                 val = ("expr", show(norm(ex.rvalue(rv, (bb, si)))))
             elif rv["k"] in ("binop", "cast"):
                 val = ("expr", show(norm(ex.rvalue(rv, (bb, si)))))
+            elif rv["k"] == "agg":
+                # the aggregate built on *this* path (its variant is exact even where the expression engine would join paths)
+                val = ("val", norm(ex.rvalue(rv, (bb, si))))
             if val is not None:
                 env[pl["l"]] = val
             else:
@@ -83,7 +97,9 @@ def paths(fn, max_paths=4000, max_loop=1):
             return
         if t["k"] == "return":
             r = None
-            if lastret is not None:
+            if lastret is not None and retval[0] is not None:
+                r = retval[0]
+            elif lastret is not None:
                 st = fn.blocks[lastret[0]]["stmts"][lastret[1]]
                 r = norm(ex.rvalue(st["rv"], lastret))
             elif effects and effects[-1][3]:
